@@ -91,7 +91,15 @@ func httpMapping(r *mon.Run) {
 			if outFirst {
 				in2, err = crs.OpenIn(s.Addr, "/i/"+rawB)
 			} else {
-				out2, err = crs.OpenOut(s.Addr, "/o/"+rawB)
+				// the upload is chunked (curl -T-) or announces a length of which only the
+				// beginning ever arrives (curl -T file from a slow producer): 100 B to 200 KiB
+				// outstanding
+				if pi%3 == 1 {
+					out2, err = crs.OpenOutLen(s.Addr, "/o/"+rawB, int64([]int{121, 5000, 70000, 200000}[pi/3%4]))
+					r.Count("http_second_uploads_with_declared_length", 1)
+				} else {
+					out2, err = crs.OpenOut(s.Addr, "/o/"+rawB)
+				}
 				if err == nil {
 					out2.Send("SECOND-STREAM-OUTPUT;")
 				}
@@ -173,6 +181,7 @@ func httpMapping(r *mon.Run) {
 	_ = url.PathEscape
 	r.Floor("http_pairs", 200)
 	r.Floor("http_pairs_refused", 100)
+	r.Floor("http_second_uploads_with_declared_length", 50)
 	r.Floor("http_pairs_admitted", 20)
 }
 
